@@ -64,7 +64,10 @@ def rules(ck, P):
     if not ck.anchor("C14", "TileStream methods", ts, 15):
         return
     par = [b for b in ts if spawn_calls(b["body"])]
-    ck.anchor("C14", "task-spawning operators", par, 3)
+    parq0 = {b["q"] for b in par}
+    deleg = [b for b in ts if b["q"] not in parq0 and any(n.get("k") in ("mcall", "call") and n.get("q") in parq0 for n in ir.walk_nodes(b["body"]))]
+    ck.anchor("C14", "parallel operators (spawning or delegating to one that spawns)", par + deleg, 3)
+    ck.anchor("C14", "task-spawning operators", par, 1)
     for b in par:
         fq = b["q"]
         # the chain expression: outermost adapter mcall that contains the spawn
@@ -173,6 +176,27 @@ def rules(ck, P):
                 ck.check(_none_only_for_none(pc), "P3", key + "|drops-only-none",
                          "an item is dropped only when its own result is None (or its task failed)",
                          "filter_map closure can drop an item whose callback returned Some", ir.loc(pc))
+    # ---- P5: operators that delegate to a task-spawning operator instead of spawning themselves
+    parq = {b["q"] for b in par}
+    LOSSY = ("::unwrap_or_default", "::unwrap_or", "::unwrap_or_else", "Result::ok", "Option::flatten", "::is_some", "::is_ok")
+    for b in ts:
+        if b["q"] in parq:
+            continue
+        dele = [n for n in ir.walk_nodes(b["body"]) if n.get("k") in ("mcall", "call") and n.get("q") in parq]
+        if not dele:
+            continue
+        fq = b["q"]
+        ads = [n for n in ir.walk_nodes(b["body"]) if n.get("k") == "mcall" and "StreamExt::" in (n.get("q") or "")]
+        bad = [n["name"] for n in ads if n["name"] not in ADAPTERS_OK]
+        ck.check(not bad, "P3", fq + "|delegate-adapters", "operator delegating to %s adds only 1:1 / None-dropping adapters %s" % ([d["name"] for d in dele], [n["name"] for n in ads]),
+                 "operator delegates to %s and then applies %s: items are dropped or regrouped by a data-dependent test instead of by their own task's None result" % ([d["name"] for d in dele], bad), ir.loc(b))
+        for d in dele:
+            for a in d.get("a", ()):
+                if a.get("k") != "closure":
+                    continue
+                lossy = [n for n in ir.walk_nodes(a["body"]) if n.get("k") in ("mcall", "call") and any((n.get("q") or "").endswith(w) for w in LOSSY)]
+                ck.check(not lossy, "P1", fq + "|delegate-result", "the wrapped callback's result reaches the delegate unchanged",
+                         "the callback's Option/Result is collapsed by %s before the delegate sees it: a None/Err result becomes indistinguishable from a real value" % [n.get("name") or n.get("q") for n in lossy], ir.loc(a))
     # ---- P4
     feb = [b for b in ts if b["q"].endswith("::for_each_buffered")]
     if ck.anchor("P4", "for_each_buffered", feb, 1):
